@@ -79,6 +79,8 @@ pub struct World {
     pub next_work: usize,
     /// answers given by children that were polled after completion (script.rs)
     pub ghosts: usize,
+    /// size hint of the source of a concurrent stream, taken at construction (co.rs)
+    pub co_src: (usize, Option<usize>),
 }
 
 pub static WORLD: Mutex<Option<World>> = Mutex::new(None);
@@ -113,6 +115,7 @@ impl World {
             nevents: 0,
             next_work: 1,
             ghosts: 0,
+            co_src: (0, None),
         }
     }
 
